@@ -23,6 +23,10 @@ type c10ts struct {
 	MP map[string]*time.Duration
 	A  [2]time.Duration
 	N  int8
+	// user-declared pointers to collections of the substituted type, and a pointer to a pointer
+	PL *[]time.Duration
+	PM *map[string]time.Duration
+	PP **time.Duration
 }
 
 func HarnessC10TypeSubst() {
@@ -45,6 +49,7 @@ func HarnessC10TypeSubst() {
 	mM := zzverif.Choose("M", 2)
 	mMP := zzverif.Choose("MP", 3) // unset, {a:ptr}, {a:ptr, b:nil}
 	sA := zzverif.Bool("A")
+	sPL, sPM, sPP := zzverif.Bool("PL"), zzverif.Bool("PM"), zzverif.Bool("PP")
 	durT := reflect.TypeOf(c10dur(0))
 	f := func(n string) reflect.Value { return val.FieldByName(n) }
 	for _, n := range []string{"D", "PD"} {
@@ -101,6 +106,25 @@ func HarnessC10TypeSubst() {
 		a.Elem().Index(1).SetInt(9)
 		f("A").Set(a)
 	}
+	if sPL {
+		sl := reflect.MakeSlice(f("PL").Type().Elem(), 1, 1)
+		sl.Index(0).SetInt(dv)
+		p := reflect.New(sl.Type())
+		p.Elem().Set(sl)
+		f("PL").Set(p)
+	}
+	if sPM {
+		mm := reflect.MakeMap(f("PM").Type().Elem())
+		mm.SetMapIndex(reflect.ValueOf("a"), reflect.ValueOf(c10dur(dv)))
+		p := reflect.New(mm.Type())
+		p.Elem().Set(mm)
+		f("PM").Set(p)
+	}
+	if sPP {
+		x := c10dur(dv)
+		px := &x
+		f("PP").Set(reflect.ValueOf(&px))
+	}
 	out, rerr := tfm.ReverseTranslate(val)
 	zzverif.Assert(rerr == nil, "C10 type substitution: ReverseTranslate failed")
 	if rerr != nil {
@@ -154,6 +178,17 @@ func HarnessC10TypeSubst() {
 	zzverif.Assert(o("A").IsNil() == !sA, "C10 type substitution: A set/unset wrongly")
 	if sA && !o("A").IsNil() {
 		zzverif.Assert(o("A").Elem().Index(0).Int() == dv && o("A").Elem().Index(1).Int() == 9, "C10 type substitution: an array element changed")
+	}
+	zzverif.Assert(o("PL").IsNil() == !sPL && o("PM").IsNil() == !sPM && o("PP").IsNil() == !sPP, "C10 type substitution: a pointer to a collection (or to a pointer) of the substituted type is set/unset wrongly")
+	if sPL && !o("PL").IsNil() {
+		zzverif.Assert(o("PL").Elem().Len() == 1 && o("PL").Elem().Index(0).Int() == dv, "C10 type substitution: *[]Duration lost its value")
+	}
+	if sPM && !o("PM").IsNil() {
+		v := o("PM").Elem().MapIndex(reflect.ValueOf("a"))
+		zzverif.Assert(v.IsValid() && v.Int() == dv, "C10 type substitution: *map[string]Duration lost its value")
+	}
+	if sPP && !o("PP").IsNil() {
+		zzverif.Assert(!o("PP").Elem().IsNil() && o("PP").Elem().Elem().Int() == dv, "C10 type substitution: **Duration lost its value")
 	}
 	zzverif.Reached("c10-typesubst-end")
 }
